@@ -6,7 +6,7 @@ import OdakModel.Exec.OpsRay
 /-! `odakdrv`: reads one operation per line on stdin, prints the model's answer per line. -/
 namespace Odak.Exec
 
-def allOps : List (String × Handler) := opsIndex ++ opsWave ++ opsRot ++ opsPolar ++ opsRay
+def allOps : List (String × Handler) := opsIndex ++ opsWave ++ opsRot ++ opsPolar ++ opsRay ++ opsRays
 
 def step (line : String) : String :=
   match (line.trimAscii.toString.splitOn " ").filter (· ≠ "") with
